@@ -77,6 +77,8 @@ type table struct {
 	Bindings  []binding `json:"bindings"`
 	Muxes     []muxSite `json:"muxes"`
 	Servers   []server  `json:"servers"`
+	Startup   startupFacts `json:"startup"`
+	Login     loginFacts   `json:"login"`
 }
 
 var (
@@ -269,6 +271,10 @@ func main() {
 			fset = p.Fset
 			for _, f := range p.Syntax {
 				scanFile(p, f, &tab)
+			}
+			if p.PkgPath == homePath && goos == "linux" {
+				scanStartup(p, &tab.Startup)
+				scanLogin(p, &tab.Login)
 			}
 		}
 	}
@@ -805,11 +811,13 @@ func writeOutputs(verif string, tab *table) {
 		fmt.Fprintf(&b, "  (* %s in %s on %s: %s *) (%s, %s, %s, %s)%s\n", comment(s.What), comment(s.Func), comment(s.Addr), comment(strings.Join(s.Leaves, ", ")), coqBytes(s.Func), coqBytes(s.Pos), coqBytes(s.Addr), lst, sep)
 	}
 	b.WriteString("].\n")
+	b.WriteString(coqStartup(&tab.Startup))
 	gen := filepath.Join(verif, "coq", "Gen")
 	if err := os.MkdirAll(gen, 0o755); err != nil {
 		fatal("%v", err)
 	}
 	writeIfChanged(filepath.Join(gen, "Routes.v"), []byte(b.String()))
+	writeIfChanged(filepath.Join(gen, "AuthPins.v"), []byte(coqLogin(&tab.Login, strings.TrimSpace(string(rev)))))
 	js, _ := json.MarshalIndent(tab, "", " ")
 	writeIfChanged(filepath.Join(gen, "routes.json"), js)
 	fmt.Printf("routes: %d routes, %d bindings, %d muxes, %d servers\n", len(tab.Routes), len(tab.Bindings), len(tab.Muxes), len(tab.Servers))
